@@ -163,6 +163,7 @@ def check(tree, rep, tier='quick', seed=0):
     from ..core import get_core
     from .. import corerules as R
     R.k30_form_loading_reentrant(get_core(tree), rep)
+    R.k38_solver_object(get_core(tree), rep)
     rep.count('absent forms referenced', sorted(absent_seen))
 
 
